@@ -140,10 +140,14 @@ harnesses! {
     n5_resolve_s1, unwind = 8, raw = 14, |r| check_ns_resolve(r, 1);
     n5_resolve_s2, unwind = 8, raw = 14, |r| check_ns_resolve(r, 2);
     n5_resolve_s3, unwind = 8, raw = 14, |r| check_ns_resolve(r, 3);
-    n5_popiter_s0, unwind = 8, raw = 11, |r| check_ns_pop_iter(r, 0);
-    n5_popiter_s1, unwind = 8, raw = 11, |r| check_ns_pop_iter(r, 1);
-    n5_popiter_s2, unwind = 8, raw = 11, |r| check_ns_pop_iter(r, 2);
-    n5_popiter_s3, unwind = 8, raw = 11, |r| check_ns_pop_iter(r, 3);
+    n5_pop_s0, unwind = 8, raw = 11, |r| check_ns_pop_iter(r, 0, false, true);
+    n5_iter_s0, unwind = 8, raw = 11, |r| check_ns_pop_iter(r, 0, true, false);
+    n5_pop_s1, unwind = 8, raw = 11, |r| check_ns_pop_iter(r, 1, false, true);
+    n5_iter_s1, unwind = 8, raw = 11, |r| check_ns_pop_iter(r, 1, true, false);
+    n5_pop_s2, unwind = 8, raw = 11, |r| check_ns_pop_iter(r, 2, false, true);
+    n5_iter_s2, unwind = 8, raw = 11, |r| check_ns_pop_iter(r, 2, true, false);
+    n5_pop_s3, unwind = 8, raw = 11, |r| check_ns_pop_iter(r, 3, false, true);
+    n5_iter_s3, unwind = 8, raw = 11, |r| check_ns_pop_iter(r, 3, true, false);
     n5_push_t0,    unwind = 16, raw = 2, |r| check_ns_push(r, 0);
     n5_push_t1,    unwind = 14, raw = 2, |r| check_ns_push(r, 1);
     n5_push_t2,    unwind = 15, raw = 2, |r| check_ns_push(r, 2);
